@@ -18,7 +18,7 @@ EXPLANATION = (
     "in _coerce_expect_re is given flags derived from r.flags) and the pattern text is converted with utf-8; (D4) "
     "validation is complete before the Expecter is built or anything can be read, and the validators themselves never "
     "touch the stream; (D5) text given to a bytes-mode object is converted with ascii, everything else is passed "
-    "through; read(n) builds its pattern with DOTALL. NOT decided: regex semantics.")
+    "through; read(n) builds its pattern with DOTALL; a text pattern is compiled in this call with this call's flags (never a regex kept from an earlier call) and the argument of expect_exact is only wrapped or mapped through the validating helper before validation (D1). NOT decided: regex semantics.")
 TRUSTED = ["re.compile(pattern, flags) semantics", "sa/ engine"]
 ASSUMPTIONS = []
 LEVEL_TEXT = ("Static analysis of named structural clauses: exhaustive type dispatch ending in a no-return TypeError helper, "
